@@ -111,7 +111,12 @@ pub fn generate(_prop: &str, _tier: Tier, seed: u64, run: u64) -> Sc {
                 (sender, receiver)
             };
             let extra = if wl.chance(1, 3) { Some(wl.pick(&METER_TYPES).to_string()) } else { None };
-            let size = if wl.chance(1, 4) { wl.range(15, 60) } else { wl.range(0, 14) } as usize;
+            let mut size = if wl.chance(1, 4) { wl.range(15, 60) } else { wl.range(0, 14) } as usize;
+            // containers read at a different element type: long enough for a per-element mischarge
+            // that grows with the position to exceed the constant factor of the model
+            if sender != receiver && (sender.starts_with("Vec<") || sender.starts_with("BTreeMap<")) && wl.chance(1, 2) {
+                size = wl.range(40, 60) as usize;
+            }
             cases.push(Case::Native { sender, receiver, vseed: wl.next_u64(), size, extra });
         } else if wl.chance(1, 8) {
             // a cheap wire value under opt against a wide expected record: the typed attempt walks
